@@ -99,7 +99,13 @@ claim('C19',
       "mpz_urandomm, mpz_rrandomb, mpn_randomb/rrandom, mpf_urandomb, gmp_randinit_set, seeding reproducibility or the statistical clauses. "
       "Termination of rejection loops is not proved.")
 
-na('C07', 'no unit built in this round: the in-family slice is only glue (sign/zero/range handling of mpz_gcd, lcm, invert, gcdext over ASSUMED mpn_gcd/gcdext kernels); Lehmer/HGCD/Jacobi need mathematical integers that CBMC cannot express (DESIGN 6 C07, 11.4)')
+claim('C07',
+      "Glue only, over ASSUMED gcd/gcdext/divexact/mul on value tokens: mpz_invert reports existence exactly when x != 0, |n| > 1 and gcd(x,n) == 1 and "
+      "returns the cofactor reduced into [0,|n|) for every sign of n and every aliasing; mpz_lcm (multi-limb operands) returns |(u/gcd(u,v))*v|, 0 for a "
+      "zero operand; inputs that are not the result are unchanged.",
+      TB + "NOTHING under the gcd algorithms is verified: mpn_gcd, mpn_gcd_1, mpn_gcdext, HGCD, Lehmer and all Jacobi/Kronecker code are assumed or not "
+      "covered; mpz_gcd, mpz_gcd_ui, mpz_gcdext, mpz_lcm_ui, the single-limb paths of mpz_lcm and every symbol function have no unit. The claim is the "
+      "argument/sign/range handling of two functions.", technique='contract-based glue proof against assumed callee contracts (value tokens, CBMC)')
 na('C08', 'no unit built in this round: only argument-handling glue of mpz_powm/pow_ui over ASSUMED REDC/powm kernels would be in reach (DESIGN 6 C08, 11.4)')
 na('C09', 'core slice attempted and undecided: the modexact identity behind the perfect-square residue filters did not come back from kissat in 10 min per divisor, the whole-function form in 30 min (DESIGN 11.3); Newton/Zimmermann root iterations are out of reach')
 claim('C13',
